@@ -33,17 +33,25 @@ HOSTILE_NAMES_B = {"x": "\\theta", "y": "c:\\new", "z": "tail\\", "u": "line\nbr
                    "t1": "\\", "t2": "it's\\n", "t3": "\r", "t4": "a\\'b", "v3": "\\x41", "v4": "q\\"}
 
 
-def make_world(rng, layered=True, n_flat=None, hostile=False):
+# a third family: integer keys whose refs collide in hash although they are different locations of one container
+# (hash(-1) == hash(-2); hash(2**61 - 1) == hash(0))
+TWIN_KEYS = {"x": -1, "y": -2, "u": -1, "w": -2, "v3": -1, "v4": -2, "t1": 2 ** 61 - 1, "t2": 0, "t3": -3, "t4": -4}
+
+
+def make_world(rng, layered=True, n_flat=None, hostile=False, twins=False):
     """Returns (world spec, locs) where locs = [dict(path, group, kind, layer)].
     hostile=True renames keys to text containing quotes, brackets, dots and container labels, or (second family)
     backslashes and control characters."""
     world, locs = _make_world(rng, layered, n_flat)
-    if hostile:
-        HOSTILE_NAMES = globals()["HOSTILE_NAMES"] if rng.random() < 0.6 else HOSTILE_NAMES_B
+    if hostile or twins:
+        if twins:
+            HOSTILE_NAMES = TWIN_KEYS
+        else:
+            HOSTILE_NAMES = globals()["HOSTILE_NAMES"] if rng.random() < 0.6 else HOSTILE_NAMES_B
         def ren(x):
             if isinstance(x, dict):
                 if set(x) == {"s"} and x["s"] in HOSTILE_NAMES:
-                    return {"s": HOSTILE_NAMES[x["s"]]}
+                    return enc(HOSTILE_NAMES[x["s"]])
                 return {k: ren(v) for k, v in x.items()}
             if isinstance(x, list):
                 return [ren(v) for v in x]
@@ -52,7 +60,7 @@ def make_world(rng, layered=True, n_flat=None, hostile=False):
         for l in locs:
             l["path"] = ren(l["path"])
             if l["kind"] == "key_s":
-                l["choices"] = [HOSTILE_NAMES[k] for k in "xyz"]
+                l["choices"] = [HOSTILE_NAMES.get(k, k) for k in "xyz"]
     return world, locs
 
 
@@ -444,7 +452,7 @@ class HistoryGen:
                 return None
             vals = [enc(leaf_value(r, "float")) for _ in members]
             if group == "n":
-                node = {"dict": [[F(k), v] for k, v in zip("xyz", vals)]}
+                node = {"dict": [[m["path"][-1][1], v] for m, v in zip(members, vals)]}    # the members' own (possibly renamed) keys
             elif group == "l":
                 node = {"list": vals}
             else:
